@@ -158,10 +158,21 @@ func buildCalls(seed uint64, env *psEnv) []callSpec {
 		return sha([]byte(fmt.Sprint(font.GlyphList(), font.FontBBoxPDF(), font.NumGlyphs(), metrics.GlyphList(), metrics.FontBBoxPDF())))
 	})
 	nameArgs := []string{"A", "space", "a100", "Tcommaaccent", "uni20AC0308", "u1F600", "f_f_i", "dalethatafpatah", "a9.alt", "nonexistent", "Aacute_B.sc", ".notdef"}
+	// the caller owns what ToUnicode returns: every result is written into
+	// after it has been looked at (a result that is the table's own memory then
+	// shows in later results, and as a data race in the concurrent workload)
+	toUni := func(n string, dingbats bool) string {
+		res := names.ToUnicode(n, dingbats)
+		out := fmt.Sprint(res)
+		for i := range res {
+			res[i] = 'X'
+		}
+		return out
+	}
 	for _, n := range nameArgs {
 		n := n
-		add("ToUnicode/dingbats/"+n, func() string { return fmt.Sprint(names.ToUnicode(n, true)) })
-		add("ToUnicode/"+n, func() string { return fmt.Sprint(names.ToUnicode(n, false)) })
+		add("ToUnicode/dingbats/"+n, func() string { return toUni(n, true) })
+		add("ToUnicode/"+n, func() string { return toUni(n, false) })
 		add("IsValid/"+n, func() string { return fmt.Sprint(names.IsValid(n)) })
 	}
 	for _, r := range []rune{'A', 0x20AC, 0x0132, 0x1F600, 0xFB01, 0x2026, 0x10FFFF, 0} {
